@@ -20,7 +20,7 @@
 
    Limiter tokens of the per-client limiter and the inline/replay hand-off are compared
    differentially only; see props/C05/NOTES.md. *)
-From Sdns Require Import Common.Base Common.GoList Gen.C05 C05.Model C05.Proofs C05.Proofs_libfuel C05.Ladder C05.Proofs_ladder C05.Edns C05.Proofs_edns C05.Proofs_gen3 C05.Proofs_loops C05.Chase C05.Proofs_chase C05.Proofs_inline C05.Verdict C05.Proofs_verdict.
+From Sdns Require Import Common.Base Common.GoList Gen.C05 C05.Model C05.Proofs C05.Proofs_libfuel C05.Ladder C05.Proofs_ladder C05.Edns C05.Proofs_edns C05.Proofs_gen3 C05.Proofs_loops C05.Chase C05.Proofs_chase C05.Proofs_inline C05.Verdict C05.Proofs_verdict C05.Climit C05.Proofs_climit C05.Prepare C05.Proofs_prepare.
 Open Scope N_scope.
 
 (* the strict admission never accepts what the library rejects, and reads the same facts *)
@@ -100,7 +100,7 @@ Theorem ladder_refines_partial :
   forall (body reply : Type) (shape_msg shape_wire cut_msg cut_wire : body -> lreq -> reply)
          (fail_msg fail_wire servfail_norec : lreq -> reply) (denial_msg : body -> lreq -> reply)
          (zone_eval : N * N -> question -> option body),
-  (forall (e : entry body) rq b, wire_body_for body e rq = Some b -> shape_wire b rq = shape_msg (e_full body e) rq) ->
+  (forall (e : entry body) rq b, Ladder.wire_body_for body e rq = Some b -> shape_wire b rq = shape_msg (e_full body e) rq) ->
   (forall b rq, cut_wire b rq = cut_msg b rq) ->
   (forall rq, fail_wire rq = fail_msg rq) ->
   forall (st : store body) tk rq ch, store_ok body zone_eval st ->
@@ -255,7 +255,7 @@ Theorem inline_replay_one_charge :
   forall (body reply : Type) (shape_msg shape_wire cut_msg cut_wire : body -> lreq -> reply)
          (fail_msg fail_wire servfail_norec : lreq -> reply) (denial_msg : body -> lreq -> reply)
          (zone_eval : N * N -> question -> option body),
-  (forall (e : entry body) rq b, wire_body_for body e rq = Some b -> shape_wire b rq = shape_msg (e_full body e) rq) ->
+  (forall (e : entry body) rq b, Ladder.wire_body_for body e rq = Some b -> shape_wire b rq = shape_msg (e_full body e) rq) ->
   (forall b rq, cut_wire b rq = cut_msg b rq) ->
   (forall rq, fail_wire rq = fail_msg rq) ->
   forall (st : store body) tk rq ch ch', store_ok body zone_eval st -> no_backstop body st rq ch ->
@@ -299,3 +299,51 @@ Theorem wire_exact_nodo_has_no_dnssec :
   existsb (rec_dnssec name) (vb_an name r ++ vb_ns name r) = false.
 Proof. exact wire_exact_nodo_clean. Qed.
 Print Assumptions wire_exact_nodo_has_no_dnssec.
+
+(* THE PER-CLIENT LIMITER WITH COOKIES (session 5).  RateLimit.ServeDNS behind its gates (replay pass, internal
+   writer, rate 0, no / loopback client address) has a decoded body (Climit.crl_msg: the loop over the cookie
+   options of the message, cookie remembered after the chain ran, UDP mismatch = one token + BADCOOKIE with the
+   fresh server cookie written into that option, TCP mismatch = the plain limiter) and serveWire
+   (Climit.crl_wire: the echoed cookie from the parsed offsets, materialising only for the BADCOOKIE reply).
+   For every limiter state (remembered cookie, tokens), transport, gate combination, server-cookie hash and
+   option list with at most one cookie option - of any length, at any position, among any other options - the
+   two give the same outcome (rest of the chain runs / nothing written / BADCOOKIE rewriting the same option
+   with the same cookie), charge the same token and remember the same cookie.  The premise is what the strict
+   admission guarantees (second theorem) and is needed (Proofs_climit.ex_two_cookies_differ). *)
+Theorem client_limiter_wire_eq_msg :
+  forall (hash : list N -> list N) (g : crl_gate) (udp : bool) (st : crl_state) (os : list lopt) (echo : list N),
+  (cookie_count os <= 1)%nat -> echo = msg_cookie_echo os ->
+  crl_serve_wire hash g udp st echo os = crl_serve_msg hash g udp st os.
+Proof. exact crl_wire_eq_msg_lemma. Qed.
+Print Assumptions client_limiter_wire_eq_msg.
+
+(* ... hence for EVERY packet Request.ParseWire takes: the limiter run on the wire-born request's echoed cookie
+   (Model.parse_wire's f_cookie_echo = Request.CookieEcho) and on the message the library decodes from the same
+   octets (Model.lib_unpack) agree - no premise on the packet beyond its octets being octets *)
+Theorem client_limiter_strict_eq_msg :
+  forall (hash : list N -> list N) (g : crl_gate) (udp : bool) (st : crl_state) (raw : list N) (f : facts),
+  bytes_ok raw -> parse_wire raw = Some f ->
+  exists m, lib_unpack raw = LOk m /\
+    crl_serve_wire hash g udp st (f_cookie_echo f) (crl_msg_opts m) = crl_serve_msg hash g udp st (crl_msg_opts m).
+Proof. exact crl_strict_eq_msg_lemma. Qed.
+Print Assumptions client_limiter_strict_eq_msg.
+
+(* cache.prepareWireServe TRANSLATED AS A WHOLE (srcgen purefunc over wire.ParseHeader / ParseQuestion / SkipName /
+   ParseRR) against the abstract admission verdict Verdict.prepare_wire_serve, for ALL octet strings and every
+   fuel: when the translated parsers accept the header (one question) and the question, and the translated
+   wire.ParseRR walks ANCOUNT + NSCOUNT + ARCOUNT records from the end of the question (Prepare.rr_types), the flag
+   byte is 0 unless the walk ends exactly at the end of the body, and otherwise exactly the model's verdict
+   (eligible, has-DNSSEC from answer + authority, chase-safe) on the rcode and the record TYPES the walk met,
+   split into sections by the header counts.  CaseVerdict checks the premises on the stored octets of real
+   entries (Prepare.stored_walk_ok: the walk reaches the end and meets the types of the records the library decodes). *)
+Theorem prepare_wire_serve_is_source : forall fuel body h q ts e,
+  go_ParseHeader body = (h, true) -> T_Header_QDCount h = 1 ->
+  go_ParseQuestion fuel body 12 = Some (q, true) ->
+  rr_types fuel (N.to_nat (T_Header_ANCount h) + N.to_nat (T_Header_NSCount h) + N.to_nat (T_Header_ARCount h))
+           body (T_wire_Question_End q) = Some (ts, e) ->
+  go_prepareWireServe fuel body =
+  Some (if (e =? go_len body)%Z
+        then vflags_byte (prepare_wire_serve N (T_wire_Question_Qtype q) (body_of_types h ts))
+        else 0).
+Proof. exact gen_prepare_wire_serve. Qed.
+Print Assumptions prepare_wire_serve_is_source.
